@@ -147,11 +147,18 @@ def bounded(tier, seed, repo_root):
         shape = rnd.choice([(2, 3), (3, 2), (3, 3), (2, 5), (4, 4), (3, 4)])
         vals = rnd.choice([VALUES, VALUES + [None], [0, 1, 2, 3, 5, 8], [True, False], [0.5, 1.5, 2.0, 0.0], [-3, -1, 0, 2, None]])
         tables.append([[rnd.choice(vals) for _ in range(shape[1])] for _ in range(shape[0])])
+    # sparse tables whose weights add up to exactly the largest value of an integer width (and one either side of it): the
+    # stand-in for a missing pair is then the first value that does not fit
+    for k in (7, 8, 15, 16, 31, 32):
+        for d in (-1, 0, 1):
+            top = 2 ** k - 1 + d
+            tables += [[[top, None]], [[top - 55, None], [5, 50]], [[None, top - 3], [1, 2]], [[top - 60, None, 10], [None, 20, 30]],
+                       [[-1, None], [top - 1 - 766, 766]], [[-(top - 9), None], [4, 5]]]
     res = pmap(_check_table, tables, repo_root, job_timeout=20, on_timeout=timeout_failure('C15'))
     fails = [f for fs in res for f in fs]
     return [{
         'name': 'C15.brute-force', 'bound': f"all tables of shape 1x1..2x2 over {small_vals!r} (exhaustive) + {n_s} seeded tables of "
-        f"shape 2x3..4x4 over boundary values {VALUES!r}, floats, bools and missing pairs",
+        f"shape 2x3..4x4 over boundary values {VALUES!r}, floats, bools and missing pairs + 108 sparse tables whose weights sum to 2**k - 1 (+-1) for k in 7, 8, 15, 16, 31, 32",
         'evaluations': len(tables), 'distinct_nontrivial': len({repr(t) for t in tables}), 'exhaustive': False,
         'rule': 'weight table -> min_weight_bipartite_matching: one-to-one, only existing pairs, true weights; complete tables: '
                 'maximum cardinality and minimum total (brute force)',
